@@ -463,6 +463,16 @@ async def c13_part(ctx) -> None:
             w = BleWorld(rng)
             notes = []
             w.pairing.dispatcher_connect(lambda ev: notes.append(ev) if ev else None)
+            def fold_back(ev, pairing=w.pairing):
+                # a realistic consumer (Home Assistant does this): fold every notified change into the pairing's model, so a later
+                # write of the value the model already holds is still a write the accessory accepted
+                try:
+                    if ev and pairing.accessories:
+                        pairing.accessories.process_changes(ev)
+                except Exception:  # noqa: BLE001 - ids unknown to the model
+                    pass
+
+            w.pairing.dispatcher_connect(fold_back)
             acc = w.accessory
             for (iid, _), s in zip(combo, vec):
                 if s:
